@@ -10,7 +10,8 @@
     plugin_tables_agree spellings_probed lower_model_exact
     graph_disabled_no_exec flag_only_affects_code_blocks parse_ignores_flag_without_code
     graph_disabled_completes_only_without_code graph_disabled_reachable_code_fails
-    graph_disabled_raises_syntax_error
+    graph_disabled_raises_syntax_error graph_loader_off_only_root_runs
+    ctor_forwards_flag loader_forwards_flag include_forwards_flag plugin_forwards_flag
     markup_parse_flag_only_at_code markup_parse_off_no_exec markup_parse_off_rejects
     markup_parse_off_error_kind text_parse_flag_only_at_code text_parse_off_no_exec
     text_parse_off_rejects
@@ -59,6 +60,51 @@ theorem lower_model_exact :
     lowerToAscii.all (fun e => e.2.all fun ch =>
       (wordsOn ++ wordsOff).all fun w => !(w.contains ch)) = true := by
   constructor <;> decide +kernel
+
+/-! ### every flag is forwarded exactly (characterisation of the generated tables) -/
+
+/-- the flag a keyword argument asks for: absent = the default = on -/
+def want (q : Req) : Bool := q != .off
+
+/-- fate of a code block in a template of class `c` whose flag is `b`: old-style text templates
+    have no code blocks (`#python` is a bad directive), the others run it iff the flag is on -/
+def fate (c : Cls) (b : Bool) : Verdict :=
+  if c = .oldtext then .reject else if b then .exec else .reject
+
+/-- **constructors**: for every class, source kind, requested flag and loader argument the
+    instance's `allow_exec` is the requested flag, the loader it holds carries the explicit
+    loader's flag or — when it made its own — the template's, and the parser rejects a code
+    block exactly when the flag is off -/
+theorem ctor_forwards_flag (c : Cls) (s : Src) (q : Req) (ld : Option Req) (h : srcOk c s = true) :
+    directFlag c s q ld = some (want q) ∧
+    directLoaderFlag c s q ld = some (match ld with | none => want q | some l => want l) ∧
+    directVerdict c s q ld = fate c (want q) := by
+  rcases ld with _ | l
+  · cases c <;> cases s <;> cases q <;> first | exact ⟨rfl, rfl, rfl⟩ | cases h
+  · cases c <;> cases s <;> cases q <;> cases l <;> first | exact ⟨rfl, rfl, rfl⟩ | cases h
+
+/-- **loader**: `TemplateLoader(allow_exec=q)` has that flag, hands it to every template it
+    instantiates (`cls=` or `default_class`), and hands itself on as their loader -/
+theorem loader_forwards_flag (c : Cls) (d : Bool) (q : Req) :
+    loaderFlag c d q = some (want q) ∧ loadFlag c d q = some (want q) ∧
+    loadLoaderFlag c d q = some (want q) ∧ loadVerdict c d q = fate c (want q) := by
+  cases c <;> cases d <;> cases q <;> exact ⟨rfl, rfl, rfl, rfl⟩
+
+/-- **includes**: whatever the including class, parse mode and reload mode, the included template
+    is of the class the include asks for, is instantiated with the flag of the includer's loader,
+    and holds that same loader -/
+theorem include_forwards_flag (c : Cls) (p : Parse) (lf ar : Bool) (h : c = .markup ∨ p = .same) :
+    inclStep c p lf ar = some (childCls c p, fate (childCls c p) lf, lf) := by
+  rcases h with rfl | rfl
+  · cases p <;> cases lf <;> cases ar <;> rfl
+  · cases c <;> cases lf <;> cases ar <;> rfl
+
+/-- **plugins**: with the option read as `b`, file templates and string templates alike get the
+    flag `b` and a loader with the flag `b` -/
+theorem plugin_forwards_flag (p : Plugin) (b : Bool) :
+    ∃ c, pluginCls p = some c ∧
+      pluginByFlag p b = some ⟨if b then .allow else .deny, fate c b, some b, some b, fate c b, some b, some b⟩ := by
+  cases p <;> cases b <;> exact ⟨_, rfl, by decide +kernel⟩
 
 /-! ### the property (reachability model over the generated tables) -/
 
@@ -174,6 +220,65 @@ theorem graph_disabled_no_exec (fuel pf : Nat) (cfg : Config) (root : Root) (fs 
           obtain ⟨hc', ht, hs'⟩ := mkRoot_disabled cfg fs rn h.1 st' root t stack hd hch hm
           have := gen_clean fuel pf fs true t.cls stack t st' hc' ht
           exact this.2.1.trans (hs'.trans hsh)
+
+/-- **contradictory settings are judged per template**: a directly constructed template — whatever
+    its own flag — that is given an explicit loader whose flag is off: the only code blocks that
+    can ever run are those of the root file itself; nothing it includes (at any depth, in any
+    mode, over any graph) and nothing loaded before through that loader runs. -/
+theorem graph_loader_off_only_root_runs (fuel pf : Nat) (cfg : Config) (c : Cls) (s : Src) (fs : FS)
+    (rn : Nat) (hist : List Nat) (hl : cfg.loader = .off) (hs : srcOk c s = true) :
+    ∀ i ∈ (run fuel pf cfg (.direct c s false) fs rn hist).sentinel,
+      ∃ f, fs.lookup rn = some f ∧ i ∈ codeIds f.items := by
+  intro i hi
+  unfold run at hi
+  have hlf := (ctor_forwards_flag c s cfg.tmpl (some cfg.loader) hs).2.1
+  have hml : mkLoader cfg (.direct c s false) = .ok (st0 false cfg.autoReload) := by
+    simp only [mkLoader]
+    have : (if false = true then none else some cfg.loader) = some cfg.loader := rfl
+    rw [this, hlf, hl]
+    rfl
+  rw [hml] at hi
+  simp only at hi
+  have hc0 : StClean (st0 false cfg.autoReload) := st0_clean _
+  have hh : StClean (afterHistory fuel pf fs (.direct c s false) (st0 false cfg.autoReload) hist).1 ∧
+      (afterHistory fuel pf fs (.direct c s false) (st0 false cfg.autoReload) hist).1.sentinel = [] := by
+    unfold afterHistory
+    simp only [Root.usesLoader]
+    have := runHistory_clean fuel pf fs hist _ hc0
+    exact ⟨this.1, this.2⟩
+  obtain ⟨hch, hsh⟩ := hh
+  generalize afterHistory fuel pf fs (.direct c s false) (st0 false cfg.autoReload) hist = h at hch hsh hi
+  unfold finish at hi
+  cases hm : mkRoot cfg fs rn h.1 (.direct c s false) with
+  | error e => rw [hm] at hi; simp only at hi; rw [hsh] at hi; cases hi
+  | ok pr =>
+      obtain ⟨st', t, stack⟩ := pr
+      rw [hm] at hi
+      simp only at hi
+      -- the root object carries the items of the root file and leaves the loader untouched
+      simp only [mkRoot] at hm
+      have hld : (if false = true then none else some cfg.loader) = some cfg.loader := rfl
+      try rw [hld] at hm
+      cases hf : fs.lookup rn with
+      | none => rw [hf] at hm; cases hdf : directFlag c s cfg.tmpl (some cfg.loader) <;> rw [hdf] at hm <;> cases hm
+      | some f =>
+          rw [hf] at hm
+          cases hdf : directFlag c s cfg.tmpl (some cfg.loader) with
+          | none => rw [hdf] at hm; cases hm
+          | some tf =>
+              rw [hdf] at hm
+              simp only at hm
+              cases hp : parseFile c tf rn f with
+              | error e => rw [hp] at hm; cases hm
+              | ok t1 =>
+                  rw [hp] at hm
+                  cases hm
+                  have hitems := (parse_items c tf rn f t hp).1
+                  have := (gen_own_only fuel pf fs true t.cls [rn] t h.1 hch).2 i hi
+                  rw [hsh] at this
+                  rcases this with h0 | h1
+                  · cases h0
+                  · exact ⟨f, rfl, by rw [← hitems]; exact h1⟩
 
 /-! ### templates without code blocks render identically whether execution is allowed or not -/
 
